@@ -165,6 +165,12 @@ pub fn check(ctx: &Ctx, c: &Case, label: &str, counting: bool) -> Result<(), Fai
 		let mut last_len = 0usize;
 		let mut events = 0usize;
 		let small = m.frames.len() <= 12;
+		// very large games: the per-event view comparisons are thinned out (they copy the columns);
+		// bytes_read / frame-count checks stay per event and the final comparison is complete
+		let total_items: usize = m.frames.iter().map(|f| f.items.len()).sum();
+		let heavy = m.frames.len() > 1500 || total_items > 5000;
+		let estride = (c.raw.events.len() / 48).max(1);
+		let mut checked = 0usize; // heavy mode: rows already compared
 		let mut closed = 0usize; // frames known to be complete
 		let drive_to_raw_len = bytes.len() % 2 == 1 && c.raw.tail.is_empty();
 		loop {
@@ -193,6 +199,27 @@ pub fn check(ctx: &Ctx, c: &Case, label: &str, counting: bool) -> Result<(), Fai
 			} else {
 				len.saturating_sub(1)
 			};
+			if heavy {
+				if events % estride == 0 && newly_closed > checked {
+					let cur = view_mutable(state.frames());
+					for i in checked..newly_closed.min(fin.ids.len()) {
+						if let Err(e) = row_eq(&cur, &fin, i, false) {
+							return Ok(Err(fail("closed_row", format!("after event #{} ({:#x}): completed frame {} differs from the final game: {}", events, code, i, e))));
+						}
+					}
+					let i = newly_closed.min(fin.ids.len()) - 1;
+					if let Err(e) = super::c13::row_matches(&state.frame(i), &cur, i, version) {
+						return Ok(Err(Fail::new("op=rowview inprogress", format!("ParseState::frame({}) vs its own columns: {}", i, e)).with_file("slp", &bytes)));
+					}
+					checked = newly_closed;
+				}
+				closed = closed.max(newly_closed);
+				last_len = len;
+				if code == spec::EV_GAME_END && !drive_to_raw_len {
+					break;
+				}
+				continue;
+			}
 			let check_all = small || events % 8 == 0;
 			if newly_closed > closed || check_all {
 				let cur = view_mutable(state.frames());
@@ -289,9 +316,17 @@ fn forced(i: usize) -> Case {
 	Case { m, raw, sched: scheds[k % scheds.len()].clone() }
 }
 
+fn large(i: usize) -> Case {
+	let m = large_model(i);
+	let raw = m.raw();
+	let sched = [Schedule::Fixed(4096), Schedule::Random(i as u64 + 7, 700), Schedule::Full, Schedule::Fixed(64), Schedule::Split(100_000)][i % 5].clone();
+	Case { m, raw, sched }
+}
+
 pub fn case(ctx: &Ctx, kind: &str, params: &Value, counting: bool) -> Result<(), Fail> {
 	match kind {
 		"forced" => check(ctx, &forced(params["i"].as_u64().unwrap_or(0) as usize), "forced", counting),
+		"large" => check(ctx, &large(params["i"].as_u64().unwrap_or(0) as usize), "large_game", counting),
 		_ => check(ctx, &gen_case(&dna_param(params), &cfg(ctx)), "dna", counting),
 	}
 }
@@ -311,6 +346,9 @@ pub fn run(ctx: &Ctx) -> usize {
 	}
 	let cfg = cfg(ctx);
 	if run_dna(ctx, "dna", ctx.n(20_000, 600_000), dna_max(ctx), |dna, counting| check(ctx, &gen_case(dna, &cfg), "dna", counting)).is_some() {
+		violations += 1;
+	}
+	if violations == 0 && run_enum(ctx, "large", LARGE_CASES, |i| json!({ "i": i }), |i| check(ctx, &large(i), "large_game", true)).is_some() {
 		violations += 1;
 	}
 	if !ctx.quick() && violations == 0 {
